@@ -613,14 +613,14 @@ theorem uEncode_inj {a b : Event} (h : uEncode a = uEncode b) : a = b := by
   exact Encodable.encode_injective this.1
 
 theorem uCodec : Codec uClassify uEncode where
-  clean e := by
+  clean e _ := by
     refine ⟨?_, ?_, ?_⟩ <;> simp [uEncode, NL, CR, List.mem_replicate]
-  parses e := by
+  parses e _ := by
     have hne : uEncode e ≠ [] := by simp [uEncode]
     have hex : ∃ e', uEncode e' = uEncode e := ⟨e, rfl⟩
     simp only [uClassify, hne, if_false, hex, dite_true]
     exact congrArg _ (uEncode_inj (Classical.choose_spec hex))
-  prefix_bad e p hp hne hnil := by
+  prefix_bad e p _ hp hne hnil := by
     have hno : ¬ ∃ e', uEncode e' = p := by
       rintro ⟨e', rfl⟩
       obtain ⟨t, ht⟩ := hp
@@ -634,15 +634,17 @@ theorem codec_exists : ∃ (classify : Bytes → LineClass) (encode : Event → 
   ⟨uClassify, uEncode, uCodec⟩
 
 /-- every batch is short for some line-length limit -/
-theorem short_exists (encode : Event → Bytes) (evs : List Event) : ∃ limit, Short encode limit evs := by
+abbrev AnyEvent : Event → Prop := fun _ => True
+
+theorem short_exists (encode : Event → Bytes) (evs : List Event) : ∃ limit, Short AnyEvent encode limit evs := by
   induction evs with
   | nil => exact ⟨0, fun e he => by cases he⟩
   | cons a evs ih =>
     obtain ⟨l, hl⟩ := ih
-    refine ⟨max l ((encode a).length + 1), fun e he => ?_⟩
+    refine ⟨max l ((encode a).length + 1), fun e he => ⟨trivial, ?_⟩⟩
     rcases List.mem_cons.1 he with rfl | he
     · omega
-    · have := hl e he; omega
+    · have := (hl e he).2; omega
 
 /-- two batches: what steps 1–4 and step 5 of the demo history write -/
 def batchA : List Event :=
@@ -653,9 +655,9 @@ def batchA : List Event :=
 def batchB : List Event := [.claim "AAAAAA" "ag-1" (some 500), .state "AAAAAA" .doing (some 500)]
 
 noncomputable def demoLimit : Nat := Classical.choose (short_exists uEncode (batchA ++ batchB))
-theorem shortAB : Short uEncode demoLimit (batchA ++ batchB) := Classical.choose_spec (short_exists uEncode (batchA ++ batchB))
-theorem shortA : Short uEncode demoLimit batchA := fun e he => shortAB e (List.mem_append_left _ he)
-theorem shortB : Short uEncode demoLimit batchB := fun e he => shortAB e (List.mem_append_right _ he)
+theorem shortAB : Short AnyEvent uEncode demoLimit (batchA ++ batchB) := Classical.choose_spec (short_exists uEncode (batchA ++ batchB))
+theorem shortA : Short AnyEvent uEncode demoLimit batchA := fun e he => shortAB e (List.mem_append_left _ he)
+theorem shortB : Short AnyEvent uEncode demoLimit batchB := fun e he => shortAB e (List.mem_append_right _ he)
 
 /-- the log file after the first batch -/
 noncomputable def file1 : Bytes := appendFile uClassify uEncode [] batchA
@@ -666,7 +668,7 @@ noncomputable def file2torn : Bytes := appendTorn uClassify uEncode file1 batchB
 /-- … and the next command's complete append on top of the torn file -/
 noncomputable def file3 : Bytes := appendFile uClassify uEncode file2torn batchB
 
-theorem file_reach : FileReach uClassify uEncode demoLimit [] file3 :=
+theorem file_reach : FileReach AnyEvent uClassify uEncode demoLimit [] file3 :=
   .tail (.tail (.tail (.refl _) (.append [] batchA shortA)) (.torn file1 batchB 3 shortB)) (.append file2torn batchB shortB)
 
 /-- C03 with all hypotheses discharged: the torn-and-appended file is readable -/
@@ -694,8 +696,8 @@ theorem file1_nl : file1.isEmpty ∨ endsWithNL file1 = true := by
 
 /-- a reader that reads the old content with its first `read(2)` and one more byte of the batch being appended with its second
     (stated for any file so that the kernel never has to look inside the concrete one) -/
-theorem chunked_two_reads {classify : Bytes → LineClass} {encode : Event → Bytes} {limit : Nat} (hc : Codec classify encode)
-    (f : Bytes) (es evs : List Event) (hr : readEvents classify limit f = .ok es) (hs : Short encode limit evs)
+theorem chunked_two_reads {W : Event → Prop} {classify : Bytes → LineClass} {encode : Event → Bytes} {limit : Nat} (hc : CodecOn W classify encode)
+    (f : Bytes) (es evs : List Event) (hr : readEvents classify limit f = .ok es) (hs : Short W encode limit evs)
     (hnl : f.isEmpty ∨ endsWithNL f = true) :
     ∃ n, n ≤ evs.length ∧
       readEvents classify limit (chunkedRead [(f, f.length), (appendFile classify encode f evs, 1)] []) = .ok (es ++ evs.take n) := by
@@ -730,8 +732,8 @@ theorem frag_bad : uClassify (dropCR [1]) = .bad := by
     | zero => simp at he
     | succ k => simp [List.replicate_succ] at he
   rw [h1]; simp [uClassify, hno]
-theorem limit_gt_one {limit : Nat} {evs : List Event} (e : Event) (he : e ∈ evs) (hs : Short uEncode limit evs) : 1 < limit := by
-  have := hs e he
+theorem limit_gt_one {limit : Nat} {evs : List Event} (e : Event) (he : e ∈ evs) (hs : Short AnyEvent uEncode limit evs) : 1 < limit := by
+  have := (hs e he).2
   simp only [uEncode, List.length_append, List.length_replicate, List.length_singleton] at this
   omega
 theorem demoLimit_gt : 1 < demoLimit := limit_gt_one _ (List.mem_cons_self) shortB
@@ -970,6 +972,60 @@ example : ∃ k, k ≤ uDone.commits.length ∧ m4 = logAfter lit3 uDone.commits
 example : uDone.log = logAfter lit3 uDone.commits uDone.commits.length := C02_log_is_serial_fold two_winners
 
 end ProcWitness
+
+/-! ### the concrete JSON line codec: hypotheses of the `…_json` theorems are met by the demo batches -/
+namespace JsonWitness
+open Storage Codec
+
+def ets : Event → String := fun _ => "2026-01-02T03:04:05Z"
+
+theorem batchA_wf : AllWf batchA := by
+  intro e he
+  simp only [batchA, List.mem_cons, List.not_mem_nil, or_false] at he
+  rcases he with rfl | rfl | rfl | rfl <;> simp +decide [Wf, TimeOk, StOk]
+theorem batchB_wf : AllWf batchB := by
+  intro e he
+  simp only [batchB, List.mem_cons, List.not_mem_nil, or_false] at he
+  rcases he with rfl | rfl <;> simp +decide [Wf, TimeOk, StOk]
+
+/-- some line-length limit admits both batches -/
+theorem json_short_exists : ∃ limit, Short Wf (encodeEvent ets) limit (batchA ++ batchB) := by
+  obtain ⟨l, hl⟩ := short_exists (encodeEvent ets) (batchA ++ batchB)
+  exact ⟨l, fun e he => ⟨allWf_append batchA_wf batchB_wf e he, (hl e he).2⟩⟩
+noncomputable def jLimit : Nat := Classical.choose json_short_exists
+theorem jShortAB : Short Wf (encodeEvent ets) jLimit (batchA ++ batchB) := Classical.choose_spec json_short_exists
+theorem jShortA : Short Wf (encodeEvent ets) jLimit batchA := fun e he => jShortAB e (List.mem_append_left _ he)
+theorem jShortB : Short Wf (encodeEvent ets) jLimit batchB := fun e he => jShortAB e (List.mem_append_right _ he)
+
+noncomputable def jfile1 : Bytes := appendFile classifyLine (encodeEvent ets) [] batchA
+theorem jfile1_reads : readEvents classifyLine jLimit jfile1 = .ok batchA := by
+  have := C12_append_extends_json ets (limit := jLimit) [] [] batchA readEvents_nil jShortA
+  simpa [jfile1] using this
+
+/-- C03 / C13: the second batch cut after 40 bytes, in the real line format -/
+example : ∃ n, n ≤ batchB.length ∧
+    readEvents classifyLine jLimit (appendTorn classifyLine (encodeEvent ets) jfile1 batchB 40) = .ok (batchA ++ batchB.take n) :=
+  C03_torn_write_json ets jfile1 batchA batchB 40 jfile1_reads jShortB
+example : ∃ n, n ≤ batchB.length ∧
+    readEvents classifyLine jLimit (appendTorn classifyLine (encodeEvent ets) jfile1 batchB 40) = .ok (batchA ++ batchB.take n) :=
+  C13_torn_tail_is_dropped_json ets jfile1 batchA batchB 40 jfile1_reads jShortB
+/-- C04 -/
+example : readEvents classifyLine jLimit (appendFile classifyLine (encodeEvent ets) jfile1 batchB) = .ok batchA ∨
+    readEvents classifyLine jLimit (appendFile classifyLine (encodeEvent ets) jfile1 batchB) = .ok (batchA ++ batchB) :=
+  C04_append_all_or_nothing_json ets jfile1 _ batchA batchB jfile1_reads jShortB .after
+/-- C03: any alternation -/
+example : ∃ es', readEvents classifyLine jLimit (appendFile classifyLine (encodeEvent ets) (appendTorn classifyLine (encodeEvent ets) jfile1 batchB 40) batchB) = .ok es' :=
+  C03_always_readable_json ets [] _ [] readEvents_nil
+    (.tail (.tail (.tail (.refl _) (.append [] batchA jShortA)) (.torn jfile1 batchB 40 jShortB)) (.append _ batchB jShortB))
+/-- C17 / C12: a title with a quote, a newline, an HTML character and an astral character -/
+example : classifyLine (encodeEvent ets (.title "AAAAAA" "say \"hi\"\n<b>😀" (some 500))) = .ev (.title "AAAAAA" "say \"hi\"\n<b>😀" (some 500)) :=
+  C17_line_roundtrip ets _ (by simp +decide [Wf, TimeOk])
+example : Time.parse (Time.format 63926283060120000000) = some 63926283060120000000 := C12_time_stamp_roundtrip _ (by decide)
+/-- C03: the demo history's log consists of well-formed events, and stays so after any further command with a sane clock -/
+example : AllWf (runCmd (batchA ++ batchB) { agent := "ag-2", times := [600] } (.claimOldest "")).log :=
+  C03_commands_write_recoverable_events _ (allWf_append batchA_wf batchB_wf) _ (by intro t ht; simp at ht; subst ht; decide) _
+
+end JsonWitness
 
 end Witness
 end Ergo
